@@ -10,6 +10,7 @@ import (
 	"fmt"
 	"reflect"
 	"sync"
+	"sync/atomic"
 )
 
 type generatorImpl[V any] interface {
@@ -21,7 +22,7 @@ type generatorImpl[V any] interface {
 type Generator[V any] struct {
 	impl    generatorImpl[V]
 	strOnce sync.Once
-	str     string
+	str     atomic.Pointer[string] // set once by String(); read by value() of concurrently running checks
 }
 
 func newGenerator[V any](impl generatorImpl[V]) *Generator[V] {
@@ -32,10 +33,11 @@ func newGenerator[V any](impl generatorImpl[V]) *Generator[V] {
 
 func (g *Generator[V]) String() string {
 	g.strOnce.Do(func() {
-		g.str = g.impl.String()
+		s := g.impl.String()
+		g.str.Store(&s)
 	})
 
-	return g.str
+	return *g.str.Load()
 }
 
 // Draw produces a value from the generator.
@@ -70,7 +72,11 @@ func (g *Generator[V]) Draw(t *T, label string) V {
 }
 
 func (g *Generator[V]) value(t *T) V {
-	i := t.s.beginGroup(g.str, true)
+	label := "" // as before: empty until String() has been called
+	if s := g.str.Load(); s != nil {
+		label = *s
+	}
+	i := t.s.beginGroup(label, true)
 	v := g.impl.value(t)
 	t.s.endGroup(i, false)
 	return v
